@@ -3,6 +3,8 @@ package bytes
 import (
 	"context"
 
+	"google.golang.org/protobuf/proto"
+
 	"github.com/anyproto/any-sync/commonspace/object/tree/objecttree"
 	"github.com/anyproto/any-sync/commonspace/object/tree/synctree"
 	"github.com/anyproto/any-sync/commonspace/object/tree/synctree/updatelistener"
@@ -63,5 +65,17 @@ func (u *headUpdater) deliver(b []byte) error {
 		Meta:  objectmessages.ObjectMeta{PeerId: "hostile-peer", ObjectId: u.treeId, SpaceId: "space"},
 		Bytes: b,
 	})
+	return err
+}
+
+type noQueue struct{}
+
+func (noQueue) UpdateQueueSize(uint64, int, bool) {}
+
+// request delivers a full-sync request message through HandleStreamRequest; responses are discarded.
+func (u *headUpdater) request(b []byte) error {
+	ctx := peer.CtxWithPeerId(context.Background(), "hostile-peer")
+	_, err := u.h.HandleStreamRequest(ctx, objectmessages.NewByteRequest("hostile-peer", "space", u.treeId, b), noQueue{},
+		func(resp proto.Message) error { return nil })
 	return err
 }
